@@ -328,3 +328,61 @@ Theorem inlines_total_premises_each_needed :
       /\ line_endings r4_input < 1 /\ Spec.EscapeSpec.utf8_valid r4_input = false).
 Proof. exact inlines_total_premises_needed. Qed.
 Print Assumptions inlines_total_premises_each_needed.
+
+(* ---- 1f. the fuel of the inline phase (Proofs/InlinesTotal2Pe.v, InlinesTotal2Fuel.v, InlinesTotal2Inv.v,
+   InlinesTotal2Main.v) ----
+   PROVED: inlines_fuel_full_statement - the inline phase of a block NEVER answers OutOfFuel, for every option set,
+   oracle, content, line-offset table and reference map (no premise at all: a Panic is a different answer).
+   The two gaps named at 1b are closed:
+   * propagation: no leaf function and no arm of parse_inline answers OutOfFuel except through process_emphasis
+     inside close_bracket_match (InlinesTotal2Fuel.v);
+   * the closer loop: process_emphasis_fuel_bound below (measure: bytes of text under the ids of the stacked
+     non-quote delimiters + 2 * closers still to visit, lowered by >= 2 in every iteration), with the invariant
+     FInv of the parser state kept by every arm of parse_inline (the runs of the stacked delimiters are disjoint
+     stretches of the input in stack order, the Text items under a stacked id hold at most d_len bytes, stacked
+     ids are below the id counter and belong to one delimiter byte each, every stacked byte is an emphasis byte
+     under the options or a quote).  The last clause also excludes the model's `neither branch moves the closer`
+     answer of pe_loop (where the Rust loop would spin) and the Panic site process_emphasis:unreachable. *)
+From V Require Proofs.InlinesTotal2Pe Proofs.InlinesTotal2Inv Proofs.InlinesTotal2Main.
+
+Theorem inlines_fuel : inlines_fuel_full_statement.
+Proof. exact InlinesTotal2Main.inlines_fuel. Qed.
+Print Assumptions inlines_fuel.
+
+(* the closer loop alone: 2 |input| + 2 |stack| + 2 iterations suffice as soon as the ids of the stack are
+   injective up to the delimiter byte, every stacked byte is a delimiter byte under the options, and the texts
+   counted for the stacked non-quote delimiters hold at most 4 |input| bytes *)
+Theorem process_emphasis_fuel_bound :
+  forall o inp s n0 items ds bottom,
+    InlinesTotal2Pe.idinj ds ->
+    Forall (fun d => InlinesTotal2Pe.dchar_ok o (d_char d) = true) ds ->
+    InlinesTotal2Pe.sumf items ds <= 4 * List.length inp ->
+    process_emphasis o inp s n0 items ds bottom <> OutOfFuel.
+Proof. exact InlinesTotal2Pe.process_emphasis_fuel. Qed.
+Print Assumptions process_emphasis_fuel_bound.
+
+(* the invariant holds in every state the main loop reaches *)
+Theorem inlines_fuel_invariant :
+  forall memo o u inp lo sl refmap maxref rs0 fuel s,
+    List.length inp < fuel ->
+    inline_loop memo o u inp lo sl refmap maxref fuel (init_st sl rs0) = Ok s -> InlinesTotal2Inv.FInv o inp s.
+Proof. exact InlinesTotal2Main.inlines_fuel_invariant_lemma. Qed.
+Print Assumptions inlines_fuel_invariant.
+
+(* Panic site process_emphasis:unreachable (ob_index on a byte that is not a delimiter byte): never the answer of
+   pe_loop on a stack of delimiter bytes, hence never the answer of the final process_emphasis of parse_inlines *)
+Theorem pe_loop_unreachable_site :
+  forall o fuel s n0 items ob below cs site,
+    Forall (fun d => InlinesTotal2Pe.dchar_ok o (d_char d) = true) cs ->
+    pe_loop o fuel s n0 items ob below (hd_error cs) (tl cs) = Panic site ->
+    site <> "inlines.rs:process_emphasis:unreachable"%string.
+Proof. exact InlinesTotal2Pe.pe_loop_unreachable_site. Qed.
+Print Assumptions pe_loop_unreachable_site.
+
+Theorem inlines_total_partial_final_emphasis_unreachable :
+  forall memo o u inp lo sl refmap maxref rs0 s site,
+    inline_loop memo o u inp lo sl refmap maxref (S (List.length inp)) (init_st sl rs0) = Ok s ->
+    process_emphasis o inp s (nid s) (rev (sibs s)) (delims s) 0 = Panic site ->
+    site <> "inlines.rs:process_emphasis:unreachable"%string.
+Proof. exact InlinesTotal2Main.final_emphasis_unreachable_site. Qed.
+Print Assumptions inlines_total_partial_final_emphasis_unreachable.
